@@ -80,6 +80,9 @@ def main():
         return 2
     rc, out = sh(f'git -C {REPO} apply {os.path.abspath(patch)}')
     results = {}
+    # evidence files are rewritten by every run: keep the ones of the unchanged tree
+    evbak = tempfile.mkdtemp(prefix='seedeval-ev-', dir='/tmp')
+    shutil.copytree(os.path.join(VERIF, 'evidence'), os.path.join(evbak, 'evidence'))
     try:
         for c in checks:
             t0 = time.time()
@@ -90,6 +93,9 @@ def main():
             print(f'  {c} ({tier}): exit={rc} {sigs[:2]}')
     finally:
         sh(f'git -C {REPO} checkout -- .')
+        shutil.rmtree(os.path.join(VERIF, 'evidence'), ignore_errors=True)
+        shutil.copytree(os.path.join(evbak, 'evidence'), os.path.join(VERIF, 'evidence'))
+        shutil.rmtree(evbak, ignore_errors=True)
     meta['checks_run'] = {'tier': tier, 'results': results}
     meta['caught_by'] = sorted(c for c, r in results.items() if r['exit'] == 1)
     return finish(name, patch, demo, meta, ok=True)
